@@ -638,6 +638,7 @@ void TraverseSchema::preprocessInclude(const DOMElement* const elem) {
     fParser->setDoNamespaces(true);
     fParser->setUserEntityHandler(fEntityHandler);
     fParser->setUserErrorReporter(fErrorReporter);
+    fParser->setDisableDefaultEntityResolution(fScanner->getDisableDefaultEntityResolution());
 
     // Should just issue warning if the schema is not found
     bool flag = srcToFill->getIssueFatalErrorIfNotFound();
@@ -852,6 +853,7 @@ void TraverseSchema::preprocessImport(const DOMElement* const elem) {
     fParser->setDoNamespaces(true);
     fParser->setUserEntityHandler(fEntityHandler);
     fParser->setUserErrorReporter(fErrorReporter);
+    fParser->setDisableDefaultEntityResolution(fScanner->getDisableDefaultEntityResolution());
 
     // Should just issue warning if the schema is not found
     bool flag = srcToFill->getIssueFatalErrorIfNotFound();
@@ -8193,6 +8195,7 @@ bool TraverseSchema::openRedefinedSchema(const DOMElement* const redefineElem) {
     fParser->setDoNamespaces(true);
     fParser->setUserEntityHandler(fEntityHandler);
     fParser->setUserErrorReporter(fErrorReporter);
+    fParser->setDisableDefaultEntityResolution(fScanner->getDisableDefaultEntityResolution());
 
     // Should just issue warning if the schema is not found
     bool flag = srcToFill->getIssueFatalErrorIfNotFound();
